@@ -31,10 +31,18 @@ def engine_for(prop):
 
 
 def setup():
+    """Build the Lean targets of every property registered in MANIFEST.json."""
     t0 = time.time()
-    ok, out, dt = core.lean_build()
+    man = json.load(open(os.path.join(core.VERIF, "MANIFEST.json")))
+    targets = []
+    for c in man.get("checks", []):
+        eng = engine_for(c["property_id"])
+        for t in eng.lean_targets(c["property_id"]):
+            if t not in targets:
+                targets.append(t)
+    ok, out, dt = core.lean_build(targets)
     sys.stdout.write(out[-3000:])
-    print("lake build: %s in %.1fs" % ("ok" if ok else "FAILED", time.time() - t0))
+    print("lake build %s: %s in %.1fs" % (" ".join(targets), "ok" if ok else "FAILED", time.time() - t0))
     return 0 if ok else 1
 
 
